@@ -114,6 +114,12 @@ impl TopDownContext<'_, '_> {
   /// - Its output type has not changed.
   /// - All its dependencies are consistent.
   fn check_task<O: Any>(&mut self, src: &TaskNode) -> Option<&O> {
+    // A task without an output is new, or its last execution was aborted by a panic. In the latter case it can still
+    // have (partial) dependencies, including reserved require dependencies that must not be checked. Such a task is
+    // inconsistent and must be executed, which first resets it.
+    if self.session.store.get_task_output(src).is_none() {
+      return None;
+    }
     let dependencies: Box<[Dependency]> = self.session.store
       .get_dependencies_from_task(src)
       .map(|d| d.clone())
